@@ -27,26 +27,33 @@ CellSets ==
   ELSE {a \cup b : a \in Opt(FewVariants(1, 1) \cup {Raw(1, 1, "", "", 2)}),
                      b \in Opt({Raw(2, 1, "s", 2, 1), Raw(2, 1, "", "", -1), Raw(2, 1, "", "", 2)})}
 
+(* ht1 = <<height, hidden>> of row 1 *)
 RowsFor(cs, ht1, extraRow) ==
-  {[r |-> r, ht |-> IF r = 1 THEN ht1 ELSE "0", xf |-> -1] : r \in {x.r : x \in cs}} \cup extraRow
+  {[r |-> r, ht |-> IF r = 1 THEN ht1[1] ELSE "0", hid |-> IF r = 1 THEN ht1[2] ELSE FALSE, xf |-> -1] : r \in {x.r : x \in cs}}
+  \cup extraRow
 
 (* the other features of a file: string table with / without an unused item, a part the library does not model,
-   a custom height of row 1, an extra row without cells (default-valued / styled).  "full": every combination;
+   row 1 plain / with a custom height / hidden, an extra row without cells (default-valued / styled / hidden / hidden
+   with a height), a column entry (default-valued / hidden / wide / styled / all three).  "full": every combination;
    otherwise the base file and every single deviation from it *)
-Feat(sst, ex, ht1, er) == [sst |-> sst, ex |-> ex, ht1 |-> ht1, er |-> er]
+Feat(sst, ex, ht1, er, co) == [sst |-> sst, ex |-> ex, ht1 |-> ht1, er |-> er, co |-> co]
 SstSet == {<<"a", "a&b">>, <<"a", "a&b", "unused">>}
 ExSet  == {{}, {"customXml"}}
-HtSet  == {"0", "20"}
-ErSet  == {{}, {[r |-> 3, ht |-> "0", xf |-> -1]}, {[r |-> 3, ht |-> "0", xf |-> 2]}}
-AllFeatures == {Feat(a, b, c, d) : a \in SstSet, b \in ExSet, c \in HtSet, d \in ErSet}
-Base == Feat(<<"a", "a&b">>, {}, "0", {})
+HtSet  == {<<"0", FALSE>>, <<"20", FALSE>>, <<"0", TRUE>>}             \* row 1 (it may hold cells): plain / custom height / hidden
+ERow(ht, hid, xf) == {[r |-> 3, ht |-> ht, hid |-> hid, xf |-> xf]}   \* row 3 never holds a cell of the file
+ErSet  == {{}, ERow("0", FALSE, -1), ERow("0", FALSE, 2), ERow("0", TRUE, -1), ERow("20", TRUE, -1)}
+          \* none / plain empty / styled empty / hidden empty / hidden with height
+ECol(w, hid, xf) == {[c |-> 2, w |-> w, hid |-> hid, xf |-> xf]}
+CoSet  == {{}, ECol("8.38", FALSE, -1), ECol("8.38", TRUE, -1), ECol("12", FALSE, -1), ECol("8.38", FALSE, 2), ECol("12", TRUE, 2)}
+AllFeatures == {Feat(a, b, c, d, e) : a \in SstSet, b \in ExSet, c \in HtSet, d \in ErSet, e \in CoSet}
+Base == Feat(<<"a", "a&b">>, {}, <<"0", FALSE>>, {}, {})
 Differs(x) == (IF x.sst # Base.sst THEN 1 ELSE 0) + (IF x.ex # Base.ex THEN 1 ELSE 0)
-              + (IF x.ht1 # Base.ht1 THEN 1 ELSE 0) + (IF x.er # Base.er THEN 1 ELSE 0)
+              + (IF x.ht1 # Base.ht1 THEN 1 ELSE 0) + (IF x.er # Base.er THEN 1 ELSE 0) + (IF x.co # Base.co THEN 1 ELSE 0)
 Features == IF Family = "full" THEN AllFeatures ELSE {x \in AllFeatures : Differs(x) <= 1}
 
 Files ==
   { [x0 |-> x0, xfs |-> <<x0, "S1">>, sst |-> ft.sst, extra |-> ft.ex, rid |-> "o",
-     sheets |-> << [cells |-> cs, rows |-> RowsFor(cs, ft.ht1, ft.er)] >>] :
+     sheets |-> << [cells |-> cs, rows |-> RowsFor(cs, ft.ht1, ft.er), cols |-> ft.co] >>] :
       x0 \in {"X0", "L0"}, ft \in Features, cs \in CellSets }
 
 EditPositions == {<<1, 1>>, <<2, 1>>, <<3, 3>>}
